@@ -234,6 +234,9 @@ def run(ctx):
                     ctx.violation("impl-violation", bad[0], {"sequence": sq, "check": "sequence", **bad[1]},
                                   found_input=True)
 
+        # LARGE stream (family Q), Python-side oracles only
+        B.run_large_stream(ctx, scratch, "c06")
+
         # F9 probe: the layout itself is ambiguous for pool indices with low byte 0x88
         f9 = B.canon_triangle(B.mk_triangle(B.gen_f9_triangle(137)))
         bad = layout_oracle(f9, scratch, rng)
@@ -309,6 +312,8 @@ def replay(ctx, data):
                     return 1 if bad else 0
             print("unknown golden entry", data["golden"])
             return 1
+        if "large_params" in data:
+            return B.replay_large(data, scratch)
         if "sequence" in data:
             sq = data["sequence"]
             print(f"replaying a write sequence of {len(sq)} triangles on {REPO} (order {data.get('order')}, "
